@@ -15,46 +15,182 @@ EXPLANATION = (
 )
 
 
+def _order_cells(ctx, spec):
+    """the constructor evaluated for every arrival order of 2 and 3 formal keys (distinct x-only strings; the SEC strings are made to
+    sort the other way round): the keys written into the script, and the points kept, must be in ascending x-only order every time"""
+    import itertools
+    from sa.cells import Evaluator, Obj, Raised, Undecided
+    mod, fn = rl.get(ctx, spec)
+    musig = "MuSig" in spec
+
+    def xo(i):
+        return bytes([0x40 + i]) * 32
+
+    def pt(i):
+        return Obj("pecc", "S256Point", {"id": i})
+
+    def opaque(name, args, kw):
+        if name in ("hash_keyagglist", "hash_keyaggcoef"):
+            return b"<" + name.encode() + b":" + args[0] + b">"
+        return NotImplemented
+    hooks = {("S256Point", "xonly"): lambda p: xo(p.attrs["id"]) if "id" in p.attrs else b"Q" * 32,
+             ("S256Point", "sec"): lambda p, *a, **k: bytes([3 if p.attrs["id"] < 2 else 2]) + bytes([0x60 - p.attrs["id"]]) * 32,
+             ("S256Point", "parse_xonly"): lambda cls, b: pt(b[0] - 0x40), ("S256Point", "parse"): lambda cls, b: pt(b[-1] - 0x40 if len(b) == 32 else 0x60 - b[-1]),
+             ("S256Point", "__rmul__"): lambda p, c: ("mul", c, p.attrs["id"]), ("Point", "__rmul__"): lambda p, c: ("mul", c, p.attrs["id"]),
+             ("S256Point", "combine"): lambda cls, terms: Obj("pecc", "S256Point", {"sum": tuple(sorted(terms, key=repr))})}
+    cells = 0
+    for n in (2, 3):
+        want = [xo(i) for i in range(n)]
+        for order in itertools.permutations(range(n)):
+            cells += 1
+            me = Obj("taproot", spec.split(":")[1].split(".")[0])
+            args = [[pt(i) for i in order]] + ([] if musig else [n - 1 if n > 1 else 1])
+            try:
+                Evaluator(ctx.repo, opaque=opaque, method_hooks=hooks).call(spec, args, self_obj=me)
+            except Raised as x:
+                raise Undecided("raises %s" % x.name)
+            cmds = me.attrs.get("commands")
+            pts = me.attrs.get("points")
+            if not isinstance(cmds, list) or not isinstance(pts, list):
+                raise Undecided("commands / points not built")
+            keys = [c for c in cmds if isinstance(c, bytes) and len(c) >= 32]
+            ids = [q.attrs.get("id") if isinstance(q, Obj) else None for q in pts]
+            arrival = "keys given in the order %s" % (list(order),)
+            if not musig and keys != want:
+                return ctx.bad(spec, "%s: the script lists the keys as %s, not in ascending x-only order -- the caller's key order (or another encoding's order) reaches "
+                                     "the script, so the same key set yields different leaves" % (arrival, [k[0] - 0x40 if len(k) == 32 else "sec" for k in keys]), fn, mod, key="sorted-keys")
+            if ids != list(range(n)):
+                return ctx.bad(spec, "%s: self.points is kept in the order %s, not ascending x-only order -- the caller's key order reaches the aggregate / script" % (arrival, ids),
+                               fn, mod, key="sorted-keys")
+    ctx.count("cells", cells)
+    return ctx.ok(spec, "keys and points end up in ascending x-only order for every arrival order of 2 and 3 keys (%d evaluations)" % cells, fn, mod, key="sorted-keys")
+
+
+def _order_syntactic(ctx, spec):
+    out = []
+    mod, fn = rl.get(ctx, spec)
+    p = param_names(fn)[1]
+    parents = {}
+    for node in ast.walk(fn):
+        for ch in ast.iter_child_nodes(node):
+            parents[ch] = node
+    bad = []
+    uses = 0
+    for node in ast.walk(fn):
+        if isinstance(node, ast.Name) and node.id == p and isinstance(node.ctx, ast.Load):
+            uses += 1
+            # climb to the nearest call
+            cur = node
+            ok = False
+            while cur in parents:
+                cur = parents[cur]
+                if isinstance(cur, ast.Call) and call_name(cur) in ("sorted", "len"):
+                    ok = True
+                    break
+                if isinstance(cur, ast.stmt):
+                    break
+            if not ok:
+                bad.append(node)
+    if not uses:
+        raise AnalysisError("%s: parameter %s unused" % (spec, p))
+    if bad:
+        out.append(ctx.bad(spec, "the caller's key order reaches the script / aggregate: `%s` is used outside sorted() at line %d" % (p, bad[0].lineno), bad[0], mod, key="sorted-keys"))
+    else:
+        out.append(ctx.ok(spec, "every use of `%s` (%d) is inside sorted() or len()" % (p, uses), fn, mod, key="sorted-keys"))
+    # what is sorted: the x-only encodings
+    srt = [c for c in ast.walk(fn) if isinstance(c, ast.Call) and call_name(c) == "sorted"]
+    if srt and "xonly()" in ast.unparse(srt[0]):
+        out.append(ctx.ok(spec, "keys are ordered by their x-only encoding", srt[0], mod, key="sort-key"))
+    else:
+        out.append(ctx.err(spec, "cannot see which encoding the keys are ordered by", fn, mod))
+    return out
+
+
 def c13_1(ctx):
+    from sa.cells import Undecided
     out = []
     for spec in ("taproot:MuSigTapScript.__init__", "taproot:MultiSigTapScript.__init__"):
-        mod, fn = rl.get(ctx, spec)
-        p = param_names(fn)[1]
-        parents = {}
-        for node in ast.walk(fn):
-            for ch in ast.iter_child_nodes(node):
-                parents[ch] = node
-        bad = []
-        uses = 0
-        for node in ast.walk(fn):
-            if isinstance(node, ast.Name) and node.id == p and isinstance(node.ctx, ast.Load):
-                uses += 1
-                # climb to the nearest call
-                cur = node
-                ok = False
-                while cur in parents:
-                    cur = parents[cur]
-                    if isinstance(cur, ast.Call) and call_name(cur) in ("sorted", "len"):
-                        ok = True
-                        break
-                    if isinstance(cur, ast.stmt):
-                        break
-                if not ok:
-                    bad.append(node)
-        if not uses:
-            raise AnalysisError("%s: parameter %s unused" % (spec, p))
-        if bad:
-            out.append(ctx.bad(spec, "the caller's key order reaches the script / aggregate: `%s` is used outside sorted() at line %d" % (p, bad[0].lineno), bad[0], mod, key="sorted-keys"))
-        else:
-            out.append(ctx.ok(spec, "every use of `%s` (%d) is inside sorted() or len()" % (p, uses), fn, mod, key="sorted-keys"))
-        # what is sorted: the x-only encodings
-        srt = [c for c in ast.walk(fn) if isinstance(c, ast.Call) and call_name(c) == "sorted"]
-        if srt and "xonly()" in ast.unparse(srt[0]):
-            out.append(ctx.ok(spec, "keys are ordered by their x-only encoding", srt[0], mod, key="sort-key"))
-        else:
-            out.append(ctx.bad(spec, "keys are not ordered by their x-only encoding", fn, mod, key="sort-key"))
+        try:
+            out.append(_order_cells(ctx, spec))
+        except Undecided:
+            out += _order_syntactic(ctx, spec)
     # MuSig: commitment over the sorted keys, coefficient per key, second coefficient 1
-    mod, fn = rl.get(ctx, "taproot:MuSigTapScript.__init__")
+    out += _musig_keyagg(ctx)
+    return out
+
+
+def _musig_keyagg(ctx):
+    """BIP327 KeyAgg in MuSigTapScript.__init__, evaluated over *free terms*: keys are formal points with distinct x-only strings, the
+    two tagged hashes are free constructors (written as bracketed byte strings, so that concatenation stays visible), c * P is the
+    pair (c, P) and combine() the multiset of its arguments.  The object built must carry L = H_list(x_1 ‖ … ‖ x_n) over the sorted
+    keys, a_i = int(H_coef(L ‖ x_i)) except a_2 = 1, and Q = sum a_i P_i -- for every arrival order of 2, 3 and 4 keys."""
+    import itertools
+    from sa.cells import Evaluator, Obj, Raised, Undecided
+    spec = "taproot:MuSigTapScript.__init__"
+    mod, fn = rl.get(ctx, spec)
+
+    def xo(i):
+        return bytes([0x40 + i]) * 32
+
+    def pt(i):
+        return Obj("pecc", "S256Point", {"id": i})
+
+    def opaque(name, args, kw):
+        if name == "hash_keyagglist":
+            return b"<L:" + args[0] + b">"
+        if name == "hash_keyaggcoef":
+            return b"<C:" + args[0] + b">"
+        return NotImplemented
+
+    def rmul(p, c):
+        return ("mul", c, p.attrs["id"])
+
+    def combine(cls, terms):
+        return Obj("pecc", "S256Point", {"sum": tuple(sorted(terms, key=repr))})
+    hooks = {("S256Point", "xonly"): lambda p: xo(p.attrs["id"]) if "id" in p.attrs else b"Q" * 32, ("S256Point", "parse_xonly"): lambda cls, b: pt(b[0] - 0x40),
+             ("S256Point", "__rmul__"): rmul, ("S256Point", "combine"): combine, ("Point", "__rmul__"): rmul}
+    cells = 0
+    for n in (2, 3, 4):
+        for order in itertools.permutations(range(n)):
+            cells += 1
+            me = Obj("taproot", "MuSigTapScript")
+            try:
+                Evaluator(ctx.repo, opaque=opaque, method_hooks=hooks).call(spec, [[pt(i) for i in order]], self_obj=me)
+            except Undecided as u:
+                return _musig_needles(ctx, fn, mod, str(u))
+            except Raised as x:
+                return [ctx.bad(spec, "key aggregation of %d keys raises %s" % (n, x.name), fn, mod, key="agg-list")]
+            L = b"<L:" + b"".join(xo(i) for i in range(n)) + b">"
+            coef = [1 if i == 1 else int.from_bytes(b"<C:" + L + xo(i) + b">", "big") for i in range(n)]
+            want_q = tuple(sorted([("mul", coef[i], i) for i in range(n)], key=repr))
+            got_l, got_c, got_q = me.attrs.get("commitment"), me.attrs.get("coefs"), me.attrs.get("point")
+            arrival = "keys arriving in the order %s" % (list(order),)
+            if got_l != L:
+                return [ctx.bad(spec, "%s: the key-list hash is not H(x_1 ‖ … ‖ x_n) over the sorted x-only keys (%s)" % (arrival, _show(got_l)), fn, mod, key="agg-list")]
+            if not isinstance(got_c, list) or len(got_c) != n:
+                return _musig_needles(ctx, fn, mod, "coefs is %r" % (got_c,))
+            if got_c[1] != 1:
+                return [ctx.bad(spec, "%s: the second key's coefficient is not 1" % arrival, fn, mod, key="second-coef")]
+            for i in range(n):
+                if got_c[i] != coef[i]:
+                    return [ctx.bad(spec, "%s: coefficient of key %d is not int(H_coef(L ‖ x_%d))%s" % (arrival, i + 1, i + 1, " (it is 1)" if got_c[i] == 1 else ""), fn, mod,
+                                    key="agg-coef")]
+            if not isinstance(got_q, Obj) or got_q.attrs.get("sum") != want_q:
+                return [ctx.bad(spec, "%s: the aggregate key is not the sum of a_i * P_i over the sorted keys" % arrival, fn, mod, key="agg-point")]
+    ctx.count("cells", cells)
+    return [ctx.ok(spec, "key-aggregation list hash covers the sorted keys (%d arrival orders of 2..4 keys, free-term evaluation)" % cells, fn, mod, key="agg-list"),
+            ctx.ok(spec, "coefficient = H(commitment ‖ key) for every key but the second", fn, mod, key="agg-coef"),
+            ctx.ok(spec, "second key's coefficient is 1", fn, mod, key="second-coef"),
+            ctx.ok(spec, "aggregate key = sum of coefficient * key", fn, mod, key="agg-point")]
+
+
+def _show(v):
+    return (v[:24].decode("latin-1") + "…") if isinstance(v, bytes) else repr(v)[:40]
+
+
+def _musig_needles(ctx, fn, mod, why):
+    """fallback when the constructor is not evaluable: the reference statements, else undecided"""
+    out = []
     src = ast.unparse(fn)
     checks = [("hash_keyagglist(b''.join(xonlys))", "key-aggregation list hash covers the sorted keys", "agg-list"),
               ("hash_keyaggcoef(self.commitment + b)", "coefficient = H(commitment ‖ key)", "agg-coef"),
@@ -63,7 +199,7 @@ def c13_1(ctx):
         if needle in src:
             out.append(ctx.ok("taproot:MuSigTapScript.__init__", what, fn, mod, key=k))
         else:
-            out.append(ctx.err("taproot:MuSigTapScript.__init__", "shape `%s` not found (%s)" % (needle, what), fn, mod))
+            out.append(ctx.err("taproot:MuSigTapScript.__init__", "constructor not evaluable (%s) and shape `%s` not found (%s)" % (why, needle, what), fn, mod))
     return out
 
 
@@ -390,4 +526,4 @@ OBLIGATIONS = [
     ("C13.9", "CELLS threshold domain", c13_9),
     ("C13.10", "CELLS formal sum", c13_10),
 ]
-FLOORS = {"C13.1": 7, "C13.2": 2, "C13.3": 7, "C13.4": 5}
+FLOORS = {"C13.1": 6, "C13.2": 2, "C13.3": 7, "C13.4": 5}
